@@ -234,3 +234,8 @@ def run(ctx, eng):
            'NeverIndexedHeaderTuple')
     ctx.assume('"accepts every conformant block" is decided through the form '
                'of each guard, not by executing the string operations')
+    cm.include(ctx, eng, 'C18',
+               lambda o: o.rule == 'TAB.raise-class' and
+               isinstance(o.where, str) and o.where.startswith('utilities.'),
+               'a non-conformant block is refused with PROTOCOL_ERROR: every '
+               'refusal of the validation stages is a plain ProtocolError')
